@@ -320,6 +320,77 @@ CONTRACTS.append(BS_VALIDATION)
 CONTRACTS[0].enum = enum_bs
 CONTRACTS[2].enum = enum_loss
 
+
+def enum_perm():
+    """every partial map of the modes {0..n-1} (n <= 3) into themselves given in every insertion order - including entries that keep a mode in place"""
+    import itertools
+    for n in (0, 1, 2, 3):
+        for keys in itertools.chain.from_iterable(itertools.permutations(range(n), k) for k in range(n + 1)):
+            for vals in itertools.product(range(n), repeat=len(keys)):
+                yield {"swaps": {"dict": [[k, v] for k, v in zip(keys, vals)]}, "n_modes": n}
+
+
+[c for c in CONTRACTS if c.target.endswith("permutation_mat_from_swaps_dict")][0].enum = enum_perm
+
+
+def replay_loss_validation(inp):
+    import warnings
+    import numpy as np
+    import lightworks as lw
+    from lightworks.sdk.circuit.components import Loss
+    s = inp["self"]
+    lv = s["loss"]
+    n, a = inp["n_modes"], s["mode"]
+    if not 0 <= a < n - 1:
+        return None
+    if isinstance(lv, dict) and "class" in lv:
+        r = _f(lv["_Parameter__value"])
+        p = lw.Parameter(0.5)
+        comp = Loss(a, p)
+        p.set(r)
+    else:
+        r = _f(lv)
+        comp = Loss(a, 0.5)
+        comp.loss = r
+    with warnings.catch_warnings():
+        warnings.simplefilter("ignore")
+        try:
+            U = comp.get_unitary(n)
+            raised = None
+        except ValueError:
+            raised = "ValueError"
+    if not 0 <= r <= 1:
+        if raised != "ValueError":
+            return (f"Loss with value {r} ({'Parameter' if isinstance(lv, dict) else 'number'}): get_unitary returned instead of raising ValueError; "
+                    f"matrix has NaN: {bool(np.isnan(U).any())}, U^dagger U = identity: {bool(np.allclose(U.conj().T @ U, np.identity(n)))}")
+    elif raised:
+        return f"Loss with valid value {r} raised {raised}"
+    return None
+
+
+def enum_loss_validation():
+    for r in (-0.25, 0, 0.5, 1, 1.5):
+        for as_param in (False, True):
+            lv = {"class": "Parameter", "_Parameter__value": r} if as_param else r
+            yield {"self": {"mode": 0, "loss": lv}, "n_modes": 2}
+
+
+_LV = "obj:Loss{mode:int;loss:%s}"
+LOSS_VALIDATION = Contract(
+    target=f"{F}:Loss.get_unitary",
+    types={"self": [_LV % "real", _LV % PARAM], "n_modes": "int"},
+    requires=["0 <= self.mode and self.mode < n_modes - 1"],
+    modifies=[],
+    ensures={},
+    # a loss outside [0,1] - a plain number or the CURRENT value of a Parameter - is rejected when the matrix is requested (no silent non-physical matrix)
+    raises={"ValueError": "not (0 <= rvalue(self.loss) and rvalue(self.loss) <= 1)"},
+    defs={"rvalue": lambda ex, v: (ex.heap[v.id].get("_Parameter__value") if hasattr(v, "id") else v)},
+    replay=replay_loss_validation,
+    props=["C10", "C01"],
+)
+LOSS_VALIDATION.enum = enum_loss_validation
+CONTRACTS.append(LOSS_VALIDATION)
+
 # spec macros
 _bs_rx = ident_else([("i == self.mode_1 and j == self.mode_1", "cplx(self.reflectivity ** 0.5, 0)"),
                      ("i == self.mode_2 and j == self.mode_2", "cplx(self.reflectivity ** 0.5, 0)"),
